@@ -545,7 +545,7 @@ func (c13) Run(t *testing.T, tape *core.Tape, rcx *RunCtx) *core.Result {
 		res.Class, res.Detail = violation("deadlock"), fmt.Sprintf("parser blocked with nothing left to run; consumer received %d of %d records, channel closed=%v", len(got), nrec, closed)
 	case streaming && !closed:
 		res.Class, res.Detail = violation("channel-not-closed"), fmt.Sprintf("the reader reached EOF and the consumer drained %d records but the channel was never closed", len(got))
-	case leak:
+	case leak && !rcx.Isolated:
 		res.Class, res.Detail = violation("goroutine-left-blocked"), "a goroutine started by the parser is blocked forever after the stream ended"
 	default:
 		if len(got) != len(recs) {
